@@ -213,6 +213,10 @@ def retrieval_diffs(path, model, u, mode):
                 continue
             # the material properties held by the file may legitimately differ from the isotherm's own (overwrite)
             k = stored.get(rec)
+            if k is None:       # an item outside the shared universe (C09's large upload): identifier only
+                if iso.iso_id != rec:
+                    out.append(('retrieved-isotherm-not-equal', f'{iso!r} (criteria={crit}): identifier {iso.iso_id} != stored {rec}'))
+                continue
             own_rows = rs.mat_rows(u[k].material)
             same_mat = rs.rows_equal(model.mats.get(iso.material.name, []), own_rows) or not own_rows
             if iso.iso_id != rec and same_mat:
